@@ -353,16 +353,269 @@ func runC05(t *testing.T, seed int64, n int, out *Out) {
 	for _, c := range boundaryLpCases(r, seed%1000 == 0 || boundaryOnly) {
 		runLpCase(ctx, c, out, stats)
 	}
+	for _, c := range boundaryOracleLp(r) {
+		runOracleLp(ctx, c, out, stats)
+	}
 	if boundaryOnly {
 		for i := 0; i < n/300+1; i++ {
 			for _, c := range boundaryLpCases(r, false) {
 				runLpCase(ctx, c, out, stats)
 			}
+			for _, c := range boundaryOracleLp(r) {
+				runOracleLp(ctx, c, out, stats)
+			}
 		}
 	} else {
 		for i := 0; i < n; i++ {
-			runLpCase(ctx, randLpCase(r), out, stats)
+			switch i % 5 {
+			case 1:
+				runSingleJoin(ctx, randSingleJoin(r), out, stats)
+			case 3:
+				runOracleLp(ctx, randOracleLp(r), out, stats)
+			default:
+				runLpCase(ctx, randLpCase(r), out, stats)
+			}
 		}
 	}
 	out.Line(map[string]any{"t": "stats", "dist": stats})
+}
+
+// ---- single-asset join of a non-oracle pool (Pow based) ----
+
+type sjCase struct {
+	stream string
+	bals   []*big.Int
+	shares *big.Int
+	i      int
+	amt    *big.Int
+	fee    sdkmath.LegacyDec
+}
+
+func lpWeight(i int) int64 { return int64(1 + i) }
+
+func runSingleJoin(ctx sdk.Context, c *sjCase, out *Out, stats map[string]int) {
+	lc := &lpCase{bals: c.bals, shares: c.shares}
+	pool := mkLpPool(lc)
+	pool.PoolParams.SwapFee = c.fee
+	n := len(c.bals)
+	ws := make([]string, n)
+	totalW := int64(0)
+	for k := 0; k < n; k++ {
+		ws[k] = pool.PoolAssets[k].Weight.String()
+		totalW += lpWeight(k)
+	}
+	var minted sdkmath.Int
+	var slip sdkmath.LegacyDec
+	kind, text := guard(func() error {
+		var err error
+		_, minted, slip, _, err = pool.JoinPool(ctx, &pool, nil, accStub{}, sdk.Coins{sdk.Coin{Denom: lpDenom(c.i), Amount: sdkmath.NewIntFromBigInt(c.amt)}}, ammtypes.DefaultParams())
+		return err
+	})
+	line := map[string]any{"t": "c05.case", "fn": "sjoin", "stream": c.stream, "bals": strs(c.bals), "ws": ws, "totalW": pool.TotalWeight.String(),
+		"S": c.shares.String(), "i": c.i, "amt": c.amt.String(), "fee": c.fee.BigInt().String(), "res": kind}
+	if kind == "ok" {
+		line["minted"] = minted.String()
+		line["slip"] = slip.BigInt().String()
+		line["newBals"] = poolBals(&pool)
+		line["newS"] = pool.TotalShares.Amount.String()
+	} else {
+		line["err"] = text
+	}
+	// reference: S * ((1 + a'/B)^(w/W) - 1), a' = a * (1 - (1 - w/W) * fee)
+	B := c.bals[c.i]
+	if B.Sign() > 0 && c.amt.Sign() > 0 && c.shares.Sign() > 0 && c.fee.IsPositive() != c.fee.IsNegative() || (B.Sign() > 0 && c.amt.Sign() > 0 && c.shares.Sign() > 0 && c.fee.IsZero()) {
+		w, W := lpWeight(c.i), totalW
+		one := bf(big.NewInt(1))
+		nw := new(big.Float).SetPrec(refPrec).Quo(bf(big.NewInt(w)), bf(big.NewInt(W)))
+		fr := new(big.Float).SetPrec(refPrec).Sub(one, nw)
+		fr.Mul(fr, decToFloat(c.fee))
+		fr.Sub(one, fr)
+		if fr.Sign() > 0 {
+			a := new(big.Float).SetPrec(refPrec).Mul(bf(c.amt), fr)
+			y := new(big.Float).SetPrec(refPrec).Quo(new(big.Float).SetPrec(refPrec).Add(bf(B), a), bf(B))
+			if y.MantExp(nil) < 200 {
+				yw := bfPowRat(y, w, W)
+				yw.Sub(yw, one).Mul(yw, bf(c.shares))
+				line["ref"] = rawFloor(yw)
+			}
+		}
+	}
+	out.Line(line)
+	stats["fn.sjoin"]++
+	stats["res.sjoin."+kind]++
+	stats["stream."+c.stream]++
+}
+
+func randSingleJoin(r *rand.Rand) *sjCase {
+	c := &sjCase{stream: "rand"}
+	n := 2 + r.Intn(3)
+	for k := 0; k < n; k++ {
+		c.bals = append(c.bals, logUniform(r, 0, 30))
+	}
+	if r.Intn(3) == 0 {
+		c.shares = new(big.Int).Mul(pow10(18), big.NewInt(100))
+	} else {
+		c.shares = logUniform(r, 0, 30)
+	}
+	c.i = r.Intn(n)
+	c.fee = genFee(r)
+	switch r.Intn(5) {
+	case 0: // up to 10 x the balance
+		c.amt = logUniformBelow(r, new(big.Int).Mul(c.bals[c.i], big.NewInt(10)))
+	default:
+		c.amt = logUniformBelow(r, c.bals[c.i])
+	}
+	return c
+}
+
+// ---- oracle pool: single-sided join and exit ----
+
+type olCase struct {
+	fn     string // ojoin | oexit
+	stream string
+	a      [2]oAsset
+	shares *big.Int
+	i      int
+	amt    *big.Int // deposit (ojoin) or exiting shares (oexit)
+	exponent, multiplier, portion, threshold sdkmath.LegacyDec
+}
+
+func runOracleLp(ctx sdk.Context, c *olCase, out *Out, stats map[string]int) {
+	oc := &oCase{a: c.a, fee: sdkmath.LegacyZeroDec()}
+	pool := mkOraclePool(oc, false)
+	pool.TotalShares = sdk.Coin{Denom: "amm/pool/1", Amount: sdkmath.NewIntFromBigInt(c.shares)}
+	denoms := []string{denomX, denomY}
+	acc := accStub{denoms: denoms, amts: []sdkmath.Int{sdkmath.NewIntFromBigInt(c.a[0].acc), sdkmath.NewIntFromBigInt(c.a[1].acc)}}
+	orc := oracleStub{denoms: denoms, prices: []sdkmath.LegacyDec{c.a[0].price, c.a[1].price}}
+	params := ammtypes.DefaultParams()
+	params.WeightBreakingFeeExponent = c.exponent
+	params.WeightBreakingFeeMultiplier = c.multiplier
+	params.WeightBreakingFeePortion = c.portion
+	params.ThresholdWeightDifference = c.threshold
+	line := map[string]any{"t": "c05.case", "fn": c.fn, "stream": c.stream, "a0": c.a[0].arr(), "a1": c.a[1].arr(), "S": c.shares.String(), "i": c.i,
+		"amt": c.amt.String(),
+		"params": []string{c.exponent.BigInt().String(), c.multiplier.BigInt().String(), c.portion.BigInt().String(), c.threshold.BigInt().String(), "1000000000000000000"}}
+	var kind, text string
+	if c.fn == "ojoin" {
+		var minted sdkmath.Int
+		var bonus sdkmath.LegacyDec
+		kind, text = guard(func() error {
+			var err error
+			_, minted, _, bonus, err = pool.JoinPool(ctx, &pool, orc, acc, sdk.Coins{sdk.Coin{Denom: denoms[c.i], Amount: sdkmath.NewIntFromBigInt(c.amt)}}, params)
+			return err
+		})
+		if kind == "ok" {
+			line["minted"] = minted.String()
+			line["bonus"] = bonus.BigInt().String()
+		}
+	} else {
+		var coins sdk.Coins
+		var bonus sdkmath.LegacyDec
+		kind, text = guard(func() error {
+			var err error
+			// CalcExitPool for the bonus, ExitPool (on the same, still unchanged pool) for the state change
+			_, bonus, err = ammtypes.CalcExitPool(ctx, orc, pool, acc, sdkmath.NewIntFromBigInt(c.amt), denoms[c.i], params)
+			if err != nil {
+				return err
+			}
+			coins, err = pool.ExitPool(ctx, orc, acc, sdkmath.NewIntFromBigInt(c.amt), denoms[c.i], params)
+			return err
+		})
+		if kind == "ok" {
+			line["out"] = coins.AmountOfNoDenomValidation(denoms[c.i]).String()
+			line["bonus"] = bonus.BigInt().String()
+		}
+	}
+	line["res"] = kind
+	if kind == "ok" {
+		line["newBals"] = poolBals(&pool)
+		line["newS"] = pool.TotalShares.Amount.String()
+	} else {
+		line["err"] = text
+	}
+	out.Line(line)
+	stats["fn."+c.fn]++
+	stats["res."+c.fn+"."+kind]++
+	stats["stream."+c.stream]++
+}
+
+func randOracleLp(r *rand.Rand) *olCase {
+	oc := randOracleCase(r)
+	c := &olCase{stream: "rand", a: oc.a, exponent: oc.exponent, multiplier: oc.multiplier, portion: oc.portion, threshold: oc.threshold}
+	if r.Intn(2) == 0 {
+		c.fn = "ojoin"
+	} else {
+		c.fn = "oexit"
+	}
+	if r.Intn(3) == 0 {
+		c.shares = new(big.Int).Mul(pow10(18), big.NewInt(100))
+	} else {
+		c.shares = logUniform(r, 0, 30)
+	}
+	c.i = r.Intn(2)
+	if c.fn == "ojoin" {
+		switch r.Intn(5) {
+		case 0:
+			c.amt = logUniformBelow(r, new(big.Int).Mul(c.a[c.i].amount, big.NewInt(10)))
+		default:
+			c.amt = logUniformBelow(r, c.a[c.i].amount)
+		}
+	} else {
+		c.amt = logUniformBelow(r, new(big.Int).Sub(c.shares, big.NewInt(1)))
+		if r.Intn(3) != 0 { // keep most exits small enough for the single asset to cover them
+			c.amt = logUniformBelow(r, new(big.Int).Add(new(big.Int).Div(c.shares, big.NewInt(4)), big.NewInt(1)))
+		}
+		switch r.Intn(40) {
+		case 0:
+			c.amt = new(big.Int).Set(c.shares)
+		case 1:
+			c.amt = new(big.Int).Sub(c.shares, big.NewInt(1))
+		}
+	}
+	return c
+}
+
+func boundaryOracleLp(r *rand.Rand) []*olCase {
+	var cs []*olCase
+	one := sdkmath.LegacyOneDec()
+	mk := func(b0, b1, acc0, acc1 int64, S int64, i int, x int64, mult string) *olCase {
+		w := big.NewInt(1)
+		return &olCase{fn: "oexit", stream: "boundary", shares: big.NewInt(S), i: i, amt: big.NewInt(x),
+			a: [2]oAsset{{amount: big.NewInt(b0), weight: w, acc: big.NewInt(acc0), snap: big.NewInt(b0), ext: one, price: one},
+				{amount: big.NewInt(b1), weight: w, acc: big.NewInt(acc1), snap: big.NewInt(b1), ext: one, price: one}},
+			exponent: sdkmath.LegacyMustNewDecFromStr("2.5"), multiplier: sdkmath.LegacyMustNewDecFromStr(mult), portion: sdkmath.LegacyMustNewDecFromStr("0.5"), threshold: sdkmath.LegacyMustNewDecFromStr("0.3")}
+	}
+	// payout exactly equal to / one below / one above the book balance (accounted balances double the TVL)
+	cs = append(cs, mk(1000, 1000, 2000, 2000, 1000, 0, 250, "0"), mk(1000, 1000, 2000, 2000, 4000, 0, 999, "0"), mk(1000, 1000, 2000, 2000, 4000, 0, 1001, "0"),
+		mk(1000, 1000, 0, 0, 1000, 1, 500, "0"), mk(1000, 1000, 0, 0, 1000, 1, 499, "0"), mk(1000, 1000, 0, 0, 1000, 1, 501, "0"),
+		mk(1000, 1000, 0, 0, 1000, 1, 500, "0.0005"), mk(1000, 1000, 0, 0, 1000, 0, 1, "0.0005"), mk(1000, 1000, 0, 0, 1000, 0, 999, "0.0005"),
+		mk(1000, 1000, 0, 0, 1000, 0, 1000, "0"), mk(1000, 1000, 0, 0, 1000, 0, 0, "0"), mk(1000, 1000, 0, 0, 0, 0, -1, "0"))
+	for i := 0; i < 120; i++ {
+		c := randOracleLp(r)
+		c.stream = "boundary"
+		switch i % 8 {
+		case 0:
+			c.a[c.i].price = sdkmath.LegacyZeroDec()
+		case 1:
+			c.a[1-c.i].price = sdkmath.LegacyZeroDec()
+		case 2:
+			c.amt = big.NewInt(1)
+		case 3:
+			c.amt = big.NewInt(0)
+		case 4: // exit worth exactly the whole book balance of the asset when prices and weights are equal
+			c.fn = "oexit"
+			c.a[1].price = c.a[0].price
+			c.a[1].amount = new(big.Int).Set(c.a[0].amount)
+			c.a[0].acc, c.a[1].acc = big.NewInt(0), big.NewInt(0)
+			c.multiplier = sdkmath.LegacyZeroDec()
+			c.shares = new(big.Int).Mul(big.NewInt(2), c.a[0].amount)
+			c.amt = new(big.Int).Set(c.a[0].amount)
+		case 5:
+			c.a[0].amount = big.NewInt(0)
+		case 6:
+			c.shares = big.NewInt(0)
+		}
+		cs = append(cs, c)
+	}
+	return cs
 }
